@@ -187,7 +187,9 @@ def driverStep (d : DState) (line : SExp) : DState × SExp :=
       | none => (d, .atom "bad-op")
       | some (.ok g) => (setGlyph d f n g, ok (dump g))
       | some (.error e) =>
-        ({ (setGlyph d f n g0) with poisoned := (f, n) :: d.poisoned }, err (errName e))
+        -- the harness deletes a glyph it could not assemble: absent from the layer, poisoned for direct ops
+        ({ d with fonts := AL.set d.fonts f (AL.erase (getLayer d f) n), poisoned := (f, n) :: d.poisoned },
+         err (errName e))
   | .list [.atom "new", .str f, .str n] =>
     let g := freshFor f n
     ({ (setGlyph d f n g) with poisoned := d.poisoned.filter (· ≠ (f, n)) }, ok (dump g))
@@ -203,13 +205,16 @@ def driverStep (d : DState) (line : SExp) : DState × SExp :=
     match asNat? i with
     | none => (d, .atom "bad-op")
     | some i =>
-      withGlyph d f n fun g => do
-        let g' ← deepen g
-        match g'.contours[i]? with
-        | none => .error .indexError
-        | some c =>
-          let r ← build false (drawContour c) (Glyph.fresh none)
-          .ok (setGlyph d f n g', ok (dump r))
+      withGlyph d f n fun g =>
+        -- `glyph[i]` deepens first; a failing deepening leaves a partly deepened (and now poisoned) glyph
+        match deepenKeep g with
+        | (g', some e) => .ok ({ (setGlyph d f n g') with poisoned := (f, n) :: d.poisoned }, err (errName e))
+        | (g', none) =>
+          match g'.contours[i]? with
+          | none => .ok ({ (setGlyph d f n g') with poisoned := (f, n) :: d.poisoned }, err (errName .indexError))
+          | some c => do
+            let r ← build false (drawContour c) (Glyph.fresh none)
+            .ok (setGlyph d f n g', ok (dump r))
   | .list [.atom "drawComponent", .str f, .str n, i] =>
     match asNat? i with
     | none => (d, .atom "bad-op")
@@ -245,22 +250,31 @@ def driverStep (d : DState) (line : SExp) : DState × SExp :=
     | none => (d, .atom "bad-op")
     | some i =>
       withGlyph d f n fun g =>
-        if f = "-" then .error .typeError
-        else do
-          let r ← decomposeAt FUEL (getLayer d f) g i
-          .ok (setGlyph d f n r, ok (dump r))
+        -- the harness evaluates `glyph.components[i]` before it calls `decomposeComponent`
+        if (g.components[i]?).isNone then .error .indexError
+        else if f = "-" then .error .typeError
+        else
+          match decomposeAt FUEL (getLayer d f) g i with
+          | .ok r => .ok (setGlyph d f n r, ok (dump r))
+          | .error e =>
+            -- only the initial deepening can fail: the glyph keeps what it had built (and is poisoned)
+            .ok ({ (setGlyph d f n (deepenKeep g).1) with poisoned := (f, n) :: d.poisoned }, err (errName e))
   | .list [.atom "decomposeAll", .str f, .str n] =>
     withGlyph d f n fun g =>
       if f = "-" ∧ g.components ≠ [] then .error .typeError
-      else do
-        let r ← decomposeAll FUEL (getLayer d f) g.components.length g
-        .ok (setGlyph d f n r, ok (dump r))
+      else
+        match decomposeAll FUEL (getLayer d f) g.components.length g with
+        | .ok r => .ok (setGlyph d f n r, ok (dump r))
+        | .error e =>
+          .ok ({ (setGlyph d f n (deepenKeep g).1) with poisoned := (f, n) :: d.poisoned }, err (errName e))
   | .list [.atom "pen", .str f, .str n, skip, .list evs] =>
     match asBool? skip, evs.mapM asEv? with
     | some skip, some evs =>
-      withGlyph d f n fun g => do
-        let r ← build skip evs g
-        .ok (setGlyph d f n r, ok (dump r))
+      withGlyph d f n fun g =>
+        -- a rejected call leaves the glyph as the calls before it made it (no poisoning)
+        match buildKeep skip evs g with
+        | (r, none) => .ok (setGlyph d f n r, ok (dump r))
+        | (r, some e) => .ok (setGlyph d f n r, err (errName e))
     | _, _ => (d, .atom "bad-op")
   | _ => (d, .atom "bad-op")
 
